@@ -1,4 +1,4 @@
-"""C02 - reassembly of received frames (single frame / fast packet) into messages."""
+"""C02 - received frames are reassembled into exactly the messages that were sent (single frame / fast packet)."""
 SPEC = {
     'engine': 'rx', 'harness': 'rx.cpp',
     'repo_srcs': ['N2kMsg.cpp', 'N2kStream.cpp', 'N2kMessages.cpp', 'N2kTimer.cpp', 'N2kGroupFunction.cpp', 'N2kGroupFunctionDefaultHandlers.cpp', 'NMEA2000.cpp'],
@@ -6,7 +6,45 @@ SPEC = {
     'lean_modules': ['N2k.Props.C02'], 'props_files': ['N2k/Props/C02.lean'],
     'translators': ['pgn_tables'],
     'case_start': ['reset'],
-    'trusted_base': [],
-    'assumptions': [],
+    'trusted_base': [
+        "model N2k/Model/Rx.lean transcribes SetN2kCANBufMsg, FindFreeCANMsgIndex (non-TP call, incl. the two fix: commits: "
+        "slot of the same PGN+source first, then a free slot, then the oldest slot if older than 100 ms modulo 2^32), "
+        "CopyBufToCANMsg, CheckKnownMessage (default lists), IsFastPacketFirstFrame, tN2kCANMsg::FreeMessage and the "
+        "deliver-then-free of ParseMessages by hand; CanIdToN2k is N2k.Send.canIdToN2k (C01: id_roundtrip); tied to the "
+        "compiled code by the differential run (delivered messages and a dump of all slots incl. MsgTime)",
+        "PGN classification tables are REGENERATED from src/NMEA2000.cpp on every run (tools/translators/pgn_tables.py)",
+        "Slot.hist is ghost state (written, never read by the model); the engine executes the model with it",
+        "the oracle's reference reassembler (harness/rx.cpp refStep) is written from the property statement, keyed by "
+        "(PGN, source), classification from the frozen lists /verif/spec/*.txt; it shares no code with the model",
+        "unsigned char / uint8_t fields (LastFrame, CopiedLen <= 223, buf[]) modelled on Nat: LastFrame+1 is computed in int",
+    ],
+    'assumptions': [
+        "CAN driver contract: 8 byte buffer, DLC <= 8 (WFrame); bytes beyond the DLC are whatever the buffer held (harness: 0xAA)",
+        "no ISO-TP frames (PGN 60416/60160 are C10's): the model leaves the state unchanged for them and the generators never emit them, "
+        "hence no slot is a TP slot",
+        "application has not replaced the default PGN lists (SetSingleFrameMessages/SetFastPacketMessages/Extend...)",
+        "node in N2km_ListenOnly, forwarding disabled: a delivered system message causes no further action",
+        "exact delivery (C02_refines_spec) is claimed when the unfinished messages incl. the new one belong to at most N "
+        "(PGN, source) pairs at every first/single frame (Spec.Fits); beyond that only C02_no_corruption (as the property asks)",
+    ],
 }
-MANIFEST = {'text': 'wip', 'design_ref': 'DESIGN.md section 4, C02', 'note': 'wip'}
+MANIFEST = {
+    'text': "Theorems over the executable model, for EVERY frame history (any senders, interleaving, loss, duplication, reordering, "
+            "arrival times incl. the 2^32 wrap, any slot count): every delivered message is a single frame with len = DLC or a chain "
+            "of received frames with one PGN, source and sequence id, counters 0..k, first frame announcing L <= 223, payload = "
+            "concatenation truncated to L, prio/dst of the first frame - and the chain is a contiguous tail of the frames of that "
+            "PGN+source (nothing of another message in between); L > 223 is never delivered; the slot is free right after delivery; "
+            "the 100 ms recycling never indexes outside the slot array. Completeness: if the unfinished messages never exceed the "
+            "slot count (a condition on the frame sequence only) the delivered list EQUALS that of an abstract per-(PGN,source) "
+            "reassembler written from the property statement (first frame supersedes, out-of-sequence discards the whole message, "
+            "exactly once) - by a refinement proof with a pigeonhole argument for slot availability. Correspondence: real "
+            "ParseMessages behind the mock driver vs the model (deliveries + slot dumps, both timer builds) on K senders x PGN "
+            "classes x lengths 0..223 (+224..255 announced) x seeded interleavings with drop/cut/duplicate/reorder, slot-exhaustion, "
+            "garbage, clock jumps around 100 ms and the 2^32 wrap, exhaustive interleavings of 2-3 short messages with one drop; "
+            "independent reference reassembler as oracle (no extra/corrupt delivery ever; none missing up to the slot count).",
+    'design_ref': 'DESIGN.md section 4, C02',
+    'note': "Two defects of the pinned tree (C02:free-before-match, C02:stale-addressed-slot) are fixed in the worktree by one commit "
+            "each and the model transcribes the fixed code; on the unfixed tree the check reports exactly these two keys. Trusted: Lean "
+            "kernel; hand model validated by differential runs; regex table translator; ISO-TP interplay (TP slots sharing the slot "
+            "array) is not modelled here (C10).",
+}
